@@ -205,7 +205,7 @@ SFails(st, e) ==
             /\ (~AnyRun(st.ref) /\ ~AnyWild(st.ref) => e.ret = 1))
      [] e.ev = "chk" ->
           F("Stat.SnapshotUnchanged",
-            e.id \in DOMAIN st.snaps /\ e.stab = st.snaps[e.id])
+            e.id \in DOMAIN st.snaps /\ Rng(e.stab) = Rng(st.snaps[e.id]))
      [] OTHER -> F("Stat.StartStopTotal", e.raised = ""))
 
 (***************************************************************************)
